@@ -126,8 +126,34 @@ def kernel_tree(draw, d_in, batch, depth=2, names=None, allow_ad=True, psd_only=
                         holder[key] = {"k": "Poly1", "batch": batch, "ad": node["ad"], "d": node["d"], "ard": False,
                                        "p": {"offset": draw(arr(batch + [1], pos(0.1, 3.0)))}}
                     seen = True
+            # A LinearKernel evaluates to a root operator; the dependency adds / multiplies such an operand through a Cholesky-based
+            # root decomposition of the OTHER operand (LinearOperator.__add__ -> add_low_rank, MulLinearOperator), which raises
+            # NotPSDError when that operand is indefinite.  CosineKernel on more than one input dimension is not positive definite:
+            # next to a LinearKernel it is used on one active dimension.
+            if any(_contains(p_, "Linear") for p_ in parts):
+                for p_ in parts:
+                    _cosine_to_1d(p_)
         r = {"k": "Add" if kind == "add" else "Prod", "parts": parts, "batch": batch}
     return r
+
+
+def _contains(node, name):
+    if node["k"] == name:
+        return True
+    if node["k"] == "Scale":
+        return _contains(node["base"], name)
+    return any(_contains(p_, name) for p_ in node.get("parts", []))
+
+
+def _cosine_to_1d(node):
+    if node["k"] == "Cosine" and node["d"] >= 2:
+        node["ad"] = [node["ad"][0] if node["ad"] else 0]
+        node["d"] = 1
+    elif node["k"] == "Scale":
+        _cosine_to_1d(node["base"])
+    else:
+        for p_ in node.get("parts", []):
+            _cosine_to_1d(p_)
 
 
 _SHARED_PRIORS = None  # dict while a model is built with prior *objects* shared between identical prior recipes
